@@ -4,6 +4,7 @@ From Coq Require Import ZArith QArith Qminmax List Bool.
 From SB3V Require Import Model.Script Gen.Frag_offpolicy Model.OnPolicyCollect Proofs.OnPolicyCollectProofs
   Model.OffPolicyCollect Proofs.OffPolicyCollectProofs Model.Pipeline Proofs.PipelineProofs.
 From SB3V Require Model.Replay Proofs.ReplayProofs.
+From SB3V Require Refuted.C04_callback_stop.
 From SB3V Require Refuted.C04_vecnorm.   (* the VecNormalize terminal-observation witness is rebuilt with every check *)
 Import ListNotations.
 Local Open Scope Z_scope.
@@ -58,6 +59,19 @@ Theorem C04_collect_app : forall ak sc a b st,
    snd (off_collect ak sc st a) ++ snd (off_collect ak sc (fst (off_collect ak sc st a)) b)).
 Proof. exact off_collect_app. Qed.
 Print Assumptions C04_collect_app.
+
+(* callback stop requests: as long as no callback returns False the stop-aware log is the plain log (all theorems above apply);
+   a stopped step moves the environment but neither the log nor the algorithm's last observation - the consequence for a continued
+   learn() is the finding stated in Refuted/C04_callback_stop.v *)
+Theorem C04_no_stop_log_is_plain_log : forall ak sc os st,
+  off_collect_s ak sc st (map (fun o => (o, false)) os) = off_collect ak sc st os.
+Proof. exact off_collect_s_no_stop. Qed.
+Print Assumptions C04_no_stop_log_is_plain_log.
+
+Theorem C04_stopped_step : forall sc st,
+  os_obs (off_step_stopped sc st) = os_obs st /\ os_cur (off_step_stopped sc st) = fst (vstep1 sc (os_cur st)).
+Proof. exact off_step_stopped_spec. Qed.
+Print Assumptions C04_stopped_step.
 
 (* ---- scaling algebra (over Q; float32 rounding is not modelled) ---- *)
 Theorem C04_unscale_scale : forall lo hi a, (~ hi == lo -> unscale lo hi (scale lo hi a) == a)%Q.
